@@ -26,19 +26,19 @@ CLAIMED.update({
  "C19": dict(
    text="Structural clauses of page migration on all paths: back-pressure discipline and the retry-list idiom on every PMC send stage, field/ID threading of the chunk pipeline (cursor steps = transfer unit, chunk count = page size / unit), completion built once at counter 0, one migration at a time, the driver's drain-shootdown-migrate-restart stage order (each stage only at its predecessor's counter 0), request fields old PAddr -> newly allocated page. Byte equality of page contents is not decided.",
    ref="4/C19", technique="SSA path analysis (SEND-DISCIPLINE, retry-list rule, must-pass), dominance cuts on counter==0 (GUARD), value provenance (FIELDS)",
-   note="page contents and page-size divisibility not decided; acknowledgement counters are raised exactly where their requests are queued; 13 unchecked Sends of the CP control middleware recorded as known findings"),
+   note="page contents and page-size divisibility not decided; acknowledgement counters are raised exactly where their requests are queued, and a counter raised from two middlewares only where it was found zero; the driver's receive handlers report progress after every message they consume; 13 unchecked Sends of the CP control middleware and the acknowledgement counter shared between the flush path and the migration handshake (2 sites) recorded as known findings; one defect (driver sleeping on the second shootdown acknowledgement) repaired by a fix: commit"),
 })
 
 CLAIMED.update({
  "C20": dict(
-   text="Structural clauses of the trace-driven NVIDIA pipeline, one table row per hierarchy level (sub-core, SM, GPU, driver): back-pressure discipline at dispatch and report sites, completion propagation (decrement, ==0 test, finished counter, unit returned to the free list by the ID in the message), zero-work completion at every load site, conservation at load and dispatch sites; the trace-line parser consumes every token for at most one field (symbolic cursor intervals pairwise disjoint). Number formats and field meanings of traces are not decided.",
+   text="Structural clauses of the trace-driven NVIDIA pipeline, one table row per hierarchy level (sub-core, SM, GPU, driver): back-pressure discipline at dispatch and report sites, completion propagation (decrement, ==0 test, finished counter, unit returned to the free list by the ID in the message), zero-work completion at every load site, conservation at load and dispatch sites; the trace-line parser consumes every token for at most one field (symbolic cursor intervals pairwise disjoint) and agrees with the tracer's print format transcribed as an oracle (scan verb per column incl. the 0x-prefixed base address, register names R0..R255, the line-number column switched by the header, 64-bit strides and deltas, an arm per address form); every reported counter is written; sibling constructors create the same maps. Instruction counts as numbers are not decided.",
    ref="4/C20", technique="SSA path analysis (SEND-DISCIPLINE), dominance cuts on counter==0 (GUARD), value provenance (PAIR/FIELDS), table of sibling levels",
-   note="instruction counts as numbers not decided; three zero-work defects found by R20.3 were repaired by a fix: commit"),
+   note="instruction counts as numbers not decided; three zero-work defects found by R20.3 and six parser / counter defects (memory address parsed as 0, registers above R31, line-number column, SM instruction counter, NewDriver map, 32-bit deltas) repaired by fix: commits; the transcribed trace format is part of the trusted base; one known finding (address form 0 has no arm)"),
 })
 
 CLAIMED.update({
  "C09": dict(
-   text="Structural clauses of work-group dispatch on all paths: the three placement algorithms checked as siblings of one interface (valid location only after a successful reservation on the named CU for the reserved work-group; counter and slot updated on the success path, the slot cleared and the per-source counter being those of the source the work-group was taken from; FreeResources/HasNext shapes), SEND-DISCIPLINE and PAIR on the map request, completion accounting per ID with the message consumed, launch response only under kernelCompleted() whose three conjuncts are verified, idle-dispatcher selection in the CP, reserve/commit/clear/free symmetry of CUResourceImpl (mask sets, status constants, slot counts, offset granularities, unit counts; the LDS demand is the dispatch packet's size, static plus dynamic, on both the reserve and the free side). Non-overlap of masks for every demand sequence is value level and not decided.",
+   text="Structural clauses of work-group dispatch on all paths: the three placement algorithms checked as siblings of one interface (valid location only after a successful reservation on the named CU for the reserved work-group; counter and slot updated on the success path, the slot cleared and the per-source counter being those of the source the work-group was taken from; FreeResources/HasNext shapes), SEND-DISCIPLINE and PAIR on the map request, completion accounting per ID with the message consumed, launch response only under kernelCompleted() whose three conjuncts are verified, idle-dispatcher selection in the CP, reserve/commit/clear/free symmetry of CUResourceImpl (mask sets, status constants, slot counts, offset granularities, unit counts; the capacities each timing platform registers with the command processor equal those its compute units are built with; the LDS demand is the dispatch packet's size, static plus dynamic, on both the reserve and the free side). Non-overlap of masks for every demand sequence is value level and not decided.",
    ref="4/C09", technique="SIBLINGS over implementations of one interface, SSA path analysis (SEND-DISCIPLINE, must-pass), dominance cuts with phi-fact pruning (GUARD), value provenance, constant tables",
    note="resourceMask internals, gridbuilder and the CU-side completion (C14) not covered here; one defect (LDS demand ignored dynamic local memory) found and repaired by a fix: commit"),
  "C11": dict(
@@ -63,14 +63,14 @@ CLAIMED.update({
 
 CLAIMED.update({
  "C07": dict(
-   text="Aliasing shapes of the register stores decided statically in all five accessors of both modes: half-register merges keep exactly the other half (mask == ^(0xffffffff << shift)) and use the shift of their LO/HI context, half reads use the same shift, the (register kind, count) coverage of the accessors is evaluated as decision tables and compared as siblings against the set of special registers the decoder produces, vector-register strides of emulation equal those of the timing register file and its builder constants, the multi-register width rule is uniform, the decoder's register count 0 behaves as count 1 in every accessor (effect traces compared), WriteOperand hands exactly operand-width bytes to the register file, and register release clears only the wavefront's own ranges. Read-after-write equality over all sequences is value level and not decided.",
+   text="Aliasing shapes of the register stores decided statically in all five accessors of both modes: half-register merges keep exactly the other half (mask == ^(0xffffffff << shift)) and use the shift of their LO/HI context, half reads use the same shift, the (register kind, count) coverage of the accessors is evaluated as decision tables and compared as siblings against the set of special registers the decoder produces, vector-register strides of emulation equal those of the timing register file and its builder constants, the multi-register width rule is uniform, the decoder's register count 0 behaves as count 1 in every accessor (effect traces compared), WriteOperand hands exactly operand-width bytes to the register file, the lane stride of a vector register file is at least the bytes one lane owns, staging buffers hold the widest operand the decoder produces, and register release clears only the wavefront's own ranges. Read-after-write equality over all sequences is value level and not decided.",
    ref="4/C07", technique="SSA pattern rules with dominance context (GUARD), decision-table evaluation of sibling accessors (SIBLINGS), constant agreement (TABLE), value provenance",
-   note="register index bounds and allocation offsets not decided; three defects (VCCHI mask, missing EXEC halves, eight emulator accessors ignoring register count 0) found and repaired by fix: commits"),
+   note="register index bounds and allocation offsets not decided; five defects (VCCHI mask, missing EXEC halves, eight emulator accessors ignoring register count 0, MI300A register files striding lanes by 1024 bytes under 2048-byte allocations, 32-byte read-back buffer) found and repaired by fix: commits"),
 })
 
 CLAIMED.update({
  "C13": dict(
-   text="Kernel loading decided against an external oracle: the published amd_kernel_code_t and kernel_descriptor_t layouts are transcribed as offset/width tables and every metadata read of both parsers and of the header sniffer is compared with its row (offset, width, slice width, flag bit, signature constants); parser bounds versus what callers establish; precedence of the V5 descriptor over header sniffing; 256 bytes stripped only under a positive sniff; kernel bytes are exactly the named symbol's range of .text; the descriptor is selected by name+.kd, size 64, inside .rodata; symbols are selected by exact name only.",
+   text="Kernel loading decided against an external oracle: the published amd_kernel_code_t and kernel_descriptor_t layouts are transcribed as offset/width tables and every metadata read of both parsers and of the header sniffer is compared with its row (offset, width, slice width, flag bit, signature constants); parser bounds versus what callers establish; precedence of the V5 descriptor over header sniffing; 256 bytes stripped only under a positive sniff; kernel bytes are exactly the named symbol's range of .text; the descriptor is selected by name+.kd, size 64, inside .rodata; symbols are selected by exact name only; the entry offset stored with a code object is relative to the instructions handed out.",
    ref="4/C13", technique="constant-table comparison against a transcribed specification (TABLE), dominance cuts (GUARD), function-local value provenance",
    note="debug/elf trusted; the register-count override arithmetic and the V5 policy overrides are not decided; the transcription of the two layouts is part of the trusted base (cross-checked against a shipped gfx942 descriptor); three offset defects of parseV5KernelDescriptor recorded as known findings"),
 })
@@ -105,9 +105,9 @@ CLAIMED.update({
 
 CLAIMED.update({
  "C14": dict(
-   text="Structural clauses of execution ordering in the timing compute unit and the emulator's barrier resolution, on all paths: completion only with both outstanding-access counters at zero, the scalar/LGKM and vector/VM comparison pairs of the wait count, increment sites and caller-propagated last-piece guarding of every counter decrement, accepted-state sets of the barrier predicates evaluated as decision tables and compared with {at barrier, completed}, barrier release only under those predicates and, at every caller (s_barrier and s_endpgm), purging exactly the released wavefronts from the waiting list, work-group completion message only when all other wavefronts completed with resources released only after a successful send. The issue-trace ordering under all latencies is a schedule property and is not decided.",
+   text="Structural clauses of execution ordering in the timing compute unit and the emulator's barrier resolution, on all paths: completion only with both outstanding-access counters at zero, the scalar/LGKM and vector/VM comparison pairs of the wait count, increment sites and caller-propagated last-piece guarding of every counter decrement, accepted-state sets of the barrier predicates evaluated as decision tables and compared with {at barrier, completed}, barrier release only under those predicates and, at every caller (s_barrier and s_endpgm), purging exactly the released wavefronts from the waiting list and making the release visible to the rest of the pass, work-group completion message only when all other wavefronts completed with resources released only after a successful send. The issue-trace ordering under all latencies is a schedule property and is not decided.",
    ref="4/C14", technique="dominance cuts with phi-fact pruning (GUARD), decision-table evaluation of sibling predicates (SIBLINGS), who-may-write, SSA path analysis (SEND-DISCIPLINE)",
-   note="scoreboard hazards, SIMM16 field ranges and memory-latency schedules are not decided; two defects (completed wavefronts not counted as arrived at a barrier, both modes; waiting list not purged when an ending wavefront releases the barrier) found and repaired by fix: commits"),
+   note="scoreboard hazards, SIMM16 field ranges and memory-latency schedules are not decided; two defects (completed wavefronts not counted as arrived at a barrier, both modes; waiting list not purged when an ending wavefront releases the barrier; released wavefront evaluated again in the same pass) found and repaired by fix: commits"),
 })
 
 CLAIMED.update({
